@@ -59,6 +59,8 @@ def gen_config(rng, run_index, j):
         cfg["imputer"] = wchoice(rng, [("marginal-joint", 35), ("marginal-product", 35), ("default", 10), (None, 20)])
         if ek is None and cfg["imputer"] is None:
             cfg["imputer"] = "marginal-product"
+    # (string categories are not generated for TreeStorage: river's own Hoeffding trees break split ties in set order,
+    # i.e. in string-hash order, so a tree-based replay under another hash secret differs whatever iXAI does)
     if kind != "tree" and rng.random() < 0.25:
         cfg["model"] = "riverlabel"      # the real RiverWrapper around a label-predicting model (one-hot outputs)
         cfg["dynamic"] = rng.random() < 0.4
